@@ -10,7 +10,14 @@ A layer description is plain JSON:
          | {"k": "nrc", "vals": [int], "bl": 8}           NRC-CONST
          | {"k": "res", "bl": 8}                          RESERVED
 All parameters are byte aligned and have no explicit position (envelope of the model: a constant parameter
-contributes the bytes it encodes to on its own)."""
+contributes the bytes it encodes to on its own).
+
+Layers with parents (value inheritance): a description may carry
+  "base": DESCRIPTION (of the parent layer, which may have a "base" itself; at most three levels),
+  "not_inherited": {"services": [short name], "gnrs": [short name]}      the exclusion lists of its PARENT-REF
+The description itself is then the ECU-VARIANT `ev` (the layer under test), its base the BASE-VARIANT `bv`, the base of
+that the FUNCTIONAL-GROUP `fg`.  A service / global negative response of a layer overrides the inherited one of the same
+short name.  `effective` computes, from the description alone, which services and global negative responses apply."""
 import logging
 import warnings
 from xml.etree import ElementTree as ET
@@ -52,46 +59,93 @@ def _param(i, p):
     raise ValueError(k)
 
 
-def _coding(tag, c):
+def _coding(tag, c, oid=None):
     ps = "".join(_param(i, p) for i, p in enumerate(c["params"]))
-    return f'<{tag} ID="{c["name"]}"><SHORT-NAME>{c["name"]}</SHORT-NAME><PARAMS>{ps}</PARAMS></{tag}>'
+    return f'<{tag} ID="{oid or c["name"]}"><SHORT-NAME>{c["name"]}</SHORT-NAME><PARAMS>{ps}</PARAMS></{tag}>'
 
 
 def _name(c):
     return c if isinstance(c, str) else c["name"]
 
 
-def to_xml(desc):
+LAYER_NAMES = ["ev", "bv", "fg"]
+LAYER_KINDS = ["ECU-VARIANT", "BASE-VARIANT", "FUNCTIONAL-GROUP"]
+NOT_INHERITED = {"services": ("NOT-INHERITED-DIAG-COMMS", "NOT-INHERITED-DIAG-COMM", "DIAG-COMM-SNREF"),
+                 "gnrs": ("NOT-INHERITED-GLOBAL-NEG-RESPONSES", "NOT-INHERITED-GLOBAL-NEG-RESPONSE", "GLOBAL-NEG-RESPONSE-SNREF")}
+
+
+def chain(desc):
+    """the layers of a description, the layer under test first: [(layer short name, kind, local description)]"""
+    ds, d = [], desc
+    while d is not None and len(ds) < 3:
+        ds.append(d)
+        d = d.get("base")
+    if len(ds) == 1:
+        return [("bv", "BASE-VARIANT", desc)]
+    return [(LAYER_NAMES[i], LAYER_KINDS[i], d) for i, d in enumerate(ds)]
+
+
+def tested_layer(desc):
+    return chain(desc)[0][0]
+
+
+def _layer_xml(lname, kind, d, parent, with_dops, qualify):
+    """one diagnostic layer; qualify: the IDs of services and global negative responses carry the layer name (an
+    overriding object has the short name of the overridden one, IDs stay unique)"""
+    q = (lambda n: f"{lname}.{n}") if qualify else (lambda n: n)
     reqs, pos, neg, svcs = [], [], [], []
-    for s in desc["services"]:
+    for s in d["services"]:
         reqs.append(_coding("REQUEST", s["req"]))
         pos += [_coding("POS-RESPONSE", c) for c in s["pos"] if not isinstance(c, str)]
         neg += [_coding("NEG-RESPONSE", c) for c in s["neg"] if not isinstance(c, str)]
         pr = "".join(f'<POS-RESPONSE-REF ID-REF="{_name(c)}"/>' for c in s["pos"])
         nr = "".join(f'<NEG-RESPONSE-REF ID-REF="{_name(c)}"/>' for c in s["neg"])
-        svcs.append(f'<DIAG-SERVICE ID="{s["name"]}"><SHORT-NAME>{s["name"]}</SHORT-NAME>'
+        svcs.append(f'<DIAG-SERVICE ID="{q(s["name"])}"><SHORT-NAME>{s["name"]}</SHORT-NAME>'
                     f'<REQUEST-REF ID-REF="{s["req"]["name"]}"/>'
                     + (f"<POS-RESPONSE-REFS>{pr}</POS-RESPONSE-REFS>" if pr else "")
                     + (f"<NEG-RESPONSE-REFS>{nr}</NEG-RESPONSE-REFS>" if nr else "") + "</DIAG-SERVICE>")
-    gn = "".join(_coding("GLOBAL-NEG-RESPONSE", c) for c in desc["gnrs"])
+    gn = "".join(_coding("GLOBAL-NEG-RESPONSE", c, q(c["name"])) for c in d["gnrs"])
     ddds = ('<DIAG-DATA-DICTIONARY-SPEC><DATA-OBJECT-PROPS>' + _dop(8) + _dop(16) + _dop(24)
-            + '</DATA-OBJECT-PROPS></DIAG-DATA-DICTIONARY-SPEC>')
-    layer = (f'<BASE-VARIANT ID="bv"><SHORT-NAME>bv</SHORT-NAME>{ddds}<DIAG-COMMS>{"".join(svcs)}</DIAG-COMMS>'
-             f'<REQUESTS>{"".join(reqs)}</REQUESTS><POS-RESPONSES>{"".join(pos)}</POS-RESPONSES>'
-             f'<NEG-RESPONSES>{"".join(neg)}</NEG-RESPONSES>'
-             + (f'<GLOBAL-NEG-RESPONSES>{gn}</GLOBAL-NEG-RESPONSES>' if gn else "") + '</BASE-VARIANT>')
+            + '</DATA-OBJECT-PROPS></DIAG-DATA-DICTIONARY-SPEC>') if with_dops else ""
+    prefs = ""
+    if parent is not None:
+        pname, pkind = parent
+        ni = ""
+        for key, (outer, inner, snref) in NOT_INHERITED.items():
+            names = d.get("not_inherited", {}).get(key, [])
+            if names:
+                ni += f"<{outer}>" + "".join(f'<{inner}><{snref} SHORT-NAME="{n}"/></{inner}>' for n in names) + f"</{outer}>"
+        prefs = f'<PARENT-REFS><PARENT-REF ID-REF="{pname}" xsi:type="{pkind}-REF">{ni}</PARENT-REF></PARENT-REFS>'
+    return (f'<{kind} ID="{lname}"><SHORT-NAME>{lname}</SHORT-NAME>{ddds}<DIAG-COMMS>{"".join(svcs)}</DIAG-COMMS>'
+            f'<REQUESTS>{"".join(reqs)}</REQUESTS><POS-RESPONSES>{"".join(pos)}</POS-RESPONSES>'
+            f'<NEG-RESPONSES>{"".join(neg)}</NEG-RESPONSES>'
+            + (f'<GLOBAL-NEG-RESPONSES>{gn}</GLOBAL-NEG-RESPONSES>' if gn else "") + prefs + f'</{kind}>')
+
+
+def to_xml(desc):
+    layers = chain(desc)
+    flat = len(layers) == 1
+    groups = {}
+    for i, (lname, kind, d) in enumerate(layers):
+        parent = (layers[i + 1][0], layers[i + 1][1]) if i + 1 < len(layers) else None
+        groups[kind] = _layer_xml(lname, kind, d, parent, with_dops=(i == len(layers) - 1), qualify=not flat)
+    body = "".join(f"<{k}S>{groups[k]}</{k}S>" for k in ("FUNCTIONAL-GROUP", "BASE-VARIANT", "ECU-VARIANT") if k in groups)
     return (f'<?xml version="1.0"?><ODX MODEL-VERSION="2.2.0" {XSI}><DIAG-LAYER-CONTAINER ID="c">'
-            f'<SHORT-NAME>c</SHORT-NAME><BASE-VARIANTS>{layer}</BASE-VARIANTS></DIAG-LAYER-CONTAINER></ODX>')
+            f'<SHORT-NAME>c</SHORT-NAME>{body}</DIAG-LAYER-CONTAINER></ODX>')
 
 
-def load_layer(desc):
-    """the description, loaded through the real parser; returns the DiagLayer"""
+def load_db(desc):
     from odxtools.database import Database
     logging.getLogger("odxtools").setLevel(logging.CRITICAL)
     db = Database()
     db._process_xml_tree(ET.fromstring(to_xml(desc)))
     db.refresh()
-    return db.diag_layers["bv"]
+    return db
+
+
+def load_layer(desc):
+    """the description, loaded through the real parser; returns the DiagLayer under test"""
+    return load_db(desc).diag_layers[tested_layer(desc)]
 
 
 # ---------------------------------------------------------------- generator
@@ -154,17 +208,20 @@ def _tail(rng, maxn=3):
     return out
 
 
-def gen_layer(rng):
+def gen_layer(rng, tag="", nsvc=None, ngnr=None, seed_prefixes=()):
     """1-5 services with shared / nested / empty / distinct constant prefixes, requests of differing
-    lengths, responses with MATCHING-REQUEST-PARAM and NRC-CONST alternatives, 0-2 global negative responses"""
-    nsvc = rng.choice([1, 2, 2, 3, 3, 4, 5])
-    prefixes = []          # request prefixes chosen so far
+    lengths, responses with MATCHING-REQUEST-PARAM and NRC-CONST alternatives, 0-2 global negative responses.
+    tag: prefix of all names (layers of one hierarchy); nsvc / ngnr: numbers of services / global negative responses;
+    seed_prefixes: request prefixes of the inherited services (to be shared / nested by the local ones)"""
+    if nsvc is None:
+        nsvc = rng.choice([1, 2, 2, 3, 3, 4, 5])
+    prefixes = list(seed_prefixes)          # request prefixes chosen so far
     services, cid = [], [0]
     shared_pos = None
 
     def coding(kind, params):
         cid[0] += 1
-        return {"name": f"{kind}{cid[0]}", "params": params}
+        return {"name": f"{tag}{kind}{cid[0]}", "params": params}
 
     for si in range(nsvc):
         r = rng.random()
@@ -235,9 +292,9 @@ def gen_layer(rng):
             neg = [neg_resp(vs[:2]), neg_resp(vs[2:4] if rng.random() < 0.8 else vs[1:3])]
             if rng.random() < 0.3:                                       # a third alternative (disjoint / overlapping)
                 neg.append(neg_resp(vs[4:] if rng.random() < 0.8 else vs[3:5]))
-        services.append({"name": f"S{si}", "req": req, "pos": pos, "neg": neg})
+        services.append({"name": f"{tag}S{si}", "req": req, "pos": pos, "neg": neg})
     gnrs = []
-    for _ in range(rng.choice([0, 0, 1, 1, 2])):
+    for _ in range(rng.choice([0, 0, 1, 1, 2]) if ngnr is None else ngnr):
         r = rng.random()
         ps = [{"k": "cc", "v": 0x7F, "bl": 8}]
         if r < 0.55:
@@ -254,26 +311,111 @@ def gen_layer(rng):
     return {"services": services, "gnrs": gnrs}
 
 
+def gen_hier_layer(rng):
+    """an ECU variant under a base variant (25 %: under a base variant under a functional group).  Every layer has
+    services and global negative responses of its own (generated like a flat layer, request prefixes shared / nested with
+    the inherited ones); a local service / global negative response may take the short name of an inherited one
+    (override); every PARENT-REF excludes some of the inherited global negative responses and services.  The two exclusion
+    lists are independent of each other and also contain names of the other kind and unknown names."""
+    depth = 3 if rng.random() < 0.25 else 2
+    desc = None
+    for lv in range(depth - 1, -1, -1):          # the root of the hierarchy first
+        tag = "EBF"[lv]
+        if desc is None:
+            d = gen_layer(rng, tag=tag, nsvc=rng.choice([1, 2, 2, 3, 3]), ngnr=rng.choice([1, 1, 2, 2, 3]))
+        else:
+            inh = effective(desc)
+            inh_s, inh_g = [x["name"] for x in inh["services"]], [x["name"] for x in inh["gnrs"]]
+            d = gen_layer(rng, tag=tag, nsvc=rng.choice([0, 1, 1, 2]), ngnr=rng.choice([0, 0, 1, 1]),
+                          seed_prefixes=[const_run(x["req"]["params"])[:4] for x in inh["services"]])
+            free = list(inh_s)
+            for x in d["services"]:                # override an inherited service
+                if free and rng.random() < 0.3:
+                    x["name"] = free.pop(rng.randrange(len(free)))
+            free = list(inh_g)
+            for x in d["gnrs"]:                    # override an inherited global negative response
+                if free and rng.random() < 0.4:
+                    x["name"] = free.pop(rng.randrange(len(free)))
+            ni_g = [n for n in inh_g if rng.random() < 0.45]
+            ni_s = [n for n in inh_s if rng.random() < 0.2]
+            if inh_s and rng.random() < 0.25:
+                ni_g.append(rng.choice(inh_s))     # a service name among the excluded global negative responses
+            if inh_g and rng.random() < 0.25:
+                ni_s.append(rng.choice(inh_g))     # and the other way round
+            if rng.random() < 0.15:
+                ni_g.append("nobody")
+            if rng.random() < 0.1:
+                ni_s.append("nothing")
+            rng.shuffle(ni_g)
+            d["base"] = desc
+            d["not_inherited"] = {"services": ni_s, "gnrs": ni_g}
+        desc = d
+    return desc
+
+
+def _inherit(inherited, excluded, local):
+    """value inheritance for one kind of object, entries (owner layer, description): the inherited objects whose short name
+    is not excluded, in their order, each replaced by the local object of the same short name if there is one, followed by
+    the other local objects"""
+    out = [x for x in inherited if x[1]["name"] not in excluded]
+    names = [x[1]["name"] for x in out]
+    for x in local:
+        if x[1]["name"] in names:
+            out[names.index(x[1]["name"])] = x
+        else:
+            out.append(x)
+            names.append(x[1]["name"])
+    return out
+
+
+def effective_owned(desc):
+    """→ ([(owner layer, service description)], [(owner layer, GNR description)]) applicable to the layer under test, read
+    off the description alone (ISO 22901-1 value inheritance along a chain of layers: everything of the parent that its
+    PARENT-REF does not exclude is inherited, local objects override inherited ones of the same short name)"""
+    svcs, gnrs = [], []
+    for lname, _, d in reversed(chain(desc)):
+        ni = d.get("not_inherited", {})
+        svcs = _inherit(svcs, set(ni.get("services", [])), [(lname, x) for x in d["services"]])
+        gnrs = _inherit(gnrs, set(ni.get("gnrs", [])), [(lname, x) for x in d["gnrs"]])
+    return svcs, gnrs
+
+
+def effective(desc):
+    """the flat description of the layer under test: applicable services and global negative responses; `ghost_services` /
+    `ghost_gnrs`: the excluded and overridden ones (they must not play any role); `all`: the complete description"""
+    if "base" not in desc:
+        return desc
+    svcs, gnrs = effective_owned(desc)
+    es, eg = {(o, x["name"]) for o, x in svcs}, {(o, x["name"]) for o, x in gnrs}
+    return {"services": [x for _, x in svcs], "gnrs": [x for _, x in gnrs],
+            "ghost_services": [x for l, _, d in chain(desc) for x in d["services"] if (l, x["name"]) not in es],
+            "ghost_gnrs": [x for l, _, d in chain(desc) for x in d["gnrs"] if (l, x["name"]) not in eg],
+            "all": desc}
+
+
 def resolve(desc, c):
     """a response given by name (shared / referenced twice) → its description"""
     if not isinstance(c, str):
         return c
-    for s in desc["services"]:
-        for x in s["pos"] + s["neg"]:
-            if not isinstance(x, str) and x["name"] == c:
-                return x
+    for _, _, d in chain(desc.get("all", desc)):
+        for s in d["services"]:
+            for x in s["pos"] + s["neg"]:
+                if not isinstance(x, str) and x["name"] == c:
+                    return x
     raise KeyError(c)
 
 
 def desc_codings(desc):
-    """short name → description of every coding object of the layer"""
+    """short name → description of every coding object of the layer (all layers of a hierarchy; the short names of
+    requests and responses are unique, those of global negative responses are not: see View.cdesc)"""
     out = {}
-    for s in desc["services"]:
-        for c in [s["req"]] + s["pos"] + s["neg"]:
-            if not isinstance(c, str):
-                out[c["name"]] = c
-    for c in desc["gnrs"]:
-        out[c["name"]] = c
+    for _, _, d in chain(desc.get("all", desc)):
+        for s in d["services"]:
+            for c in [s["req"]] + s["pos"] + s["neg"]:
+                if not isinstance(c, str):
+                    out[c["name"]] = c
+        for c in d["gnrs"]:
+            out.setdefault(c["name"], c)
     return out
 
 
@@ -309,21 +451,31 @@ def desc_verdict(c, msg, strict):
 class View:
     """numbering of services / coding objects of a loaded layer and their model description"""
 
-    def __init__(self, layer):
+    def __init__(self, layer, services=None, gnrs=None, ghost_services=(), ghost_gnrs=()):
+        """services / gnrs: the objects that apply to the layer (default: what the layer itself says, flat layers);
+        ghost_*: objects of the database which do NOT apply to it (excluded from inheritance or overridden) — they get
+        numbers so that they can be named when the implementation reports them, the model never sees them"""
         from odxtools.parameters.codedconstparameter import CodedConstParameter
         from odxtools.parameters.matchingrequestparameter import MatchingRequestParameter
         from odxtools.parameters.physicalconstantparameter import PhysicalConstantParameter
         self._cc, self._pc, self._mr = CodedConstParameter, PhysicalConstantParameter, MatchingRequestParameter
         self.layer = layer
-        self.services = list(layer.services)
-        self.gnrs = list(layer.global_negative_responses)
-        self.sno = {id(s): i + 1 for i, s in enumerate(self.services)}
-        self.sname = {i + 1: s.short_name for i, s in enumerate(self.services)}
+        self.services = list(layer.services) if services is None else list(services)
+        self.gnrs = list(layer.global_negative_responses) if gnrs is None else list(gnrs)
+        self.ghost_services, self.ghost_gnrs = list(ghost_services), list(ghost_gnrs)
+        self.sno = {id(s): i + 1 for i, s in enumerate(self.services + self.ghost_services)}
+        self.sname = {i + 1: s.short_name + ("" if i < len(self.services) else " (not applicable)")
+                      for i, s in enumerate(self.services + self.ghost_services)}
         self.cno, self.cobj = {}, {}
         for s in self.services:
             for co in ([s.request] if s.request is not None else []) + list(s.positive_responses) + list(s.negative_responses):
                 self._reg(co)
         for g in self.gnrs:
+            self._reg(g)
+        for s in self.ghost_services:
+            for co in ([s.request] if s.request is not None else []) + list(s.positive_responses) + list(s.negative_responses):
+                self._reg(co)
+        for g in self.ghost_gnrs:
             self._reg(g)
         self.pdesc = {n: self._params(co) for n, co in self.cobj.items()}
 
@@ -352,9 +504,13 @@ class View:
         return " ".join(out)
 
     def kind(self, n):
-        co = self.cobj[n]
+        co = self.cobj.get(n)
+        if co is None:
+            return "unknown"
         if any(co is g for g in self.gnrs):
             return "gnr"
+        if any(co is g for g in self.ghost_gnrs):
+            return "gnr-not-applicable"
         return "own"
 
     def is_request(self, n):
@@ -372,6 +528,63 @@ class View:
             rq = cs([s.request]) if s.request is not None else ""
             svcs.append(f"(svc {self.sno[id(s)]} (req {rq}) (pos {cs(s.positive_responses)}) (neg {cs(s.negative_responses)}))")
         return f"(layer (gnrs {cs(self.gnrs)}) {' '.join(svcs)})"
+
+
+def make_view(desc):
+    """the description loaded through the real parser, as seen by the model.  Flat layer: services and global negative
+    responses as the layer lists them.  Layer with parents: the services and global negative responses which apply to it
+    according to the DESCRIPTION (`effective_owned`), looked up among the locally defined objects of the layers of the
+    database — what the implementation thinks the layer inherits is not consulted (`impl_contents` compares it)."""
+    if "base" not in desc:
+        v = View(load_layer(desc))
+        dc = desc_codings(desc)
+        v.eff = desc
+        v.cdesc = {n: dc[co.short_name] for n, co in v.cobj.items() if getattr(co, "short_name", None) in dc}
+        v.expected = None
+        return v
+    db = load_db(desc)
+    pool_s, pool_g, by_obj = {}, {}, {}
+    for lname, _, d in chain(desc):
+        raw = db.diag_layers[lname].diag_layer_raw
+        for x in raw.diag_comms:
+            pool_s[(lname, x.short_name)] = x
+        for x in raw.global_negative_responses:
+            pool_g[(lname, x.short_name)] = x
+        for sd in d["services"]:
+            s = pool_s[(lname, sd["name"])]
+            by_obj[id(s.request)] = sd["req"]
+            for ro, rd in zip(list(s.positive_responses) + list(s.negative_responses), sd["pos"] + sd["neg"]):
+                by_obj[id(ro)] = resolve(desc, rd)
+        for gd in d["gnrs"]:
+            by_obj[id(pool_g[(lname, gd["name"])])] = gd
+    svcs, gnrs = effective_owned(desc)
+    es, eg = [pool_s[(o, x["name"])] for o, x in svcs], [pool_g[(o, x["name"])] for o, x in gnrs]
+    v = View(db.diag_layers[tested_layer(desc)], es, eg,
+             [x for x in pool_s.values() if not any(x is y for y in es)],
+             [x for x in pool_g.values() if not any(x is y for y in eg)])
+    v.eff = effective(desc)
+    v.cdesc = {n: by_obj[id(co)] for n, co in v.cobj.items() if id(co) in by_obj}
+    v.expected = (es, eg)
+    return v
+
+
+def impl_contents(view):
+    """what the implementation says the layer contains against what applies to it according to the description:
+    [(kind, 'extra'|'missing'|'order', short names)] (objects are compared by identity)"""
+    out = []
+    if view.expected is None:
+        return out
+    for kind, exp, got in (("service", view.expected[0], list(view.layer.services)),
+                           ("gnr", view.expected[1], list(view.layer.global_negative_responses))):
+        extra = [x.short_name for x in got if not any(x is y for y in exp)]
+        missing = [x.short_name for x in exp if not any(x is y for y in got)]
+        if extra:
+            out.append((kind, "extra", extra))
+        if missing:
+            out.append((kind, "missing", missing))
+        if not extra and not missing and [id(x) for x in exp] != [id(x) for x in got]:
+            out.append((kind, "order", [x.short_name for x in got]))
+    return out
 
 
 def set_strict(flag):
